@@ -36,3 +36,13 @@ func (dpos *DPoS) VerifC09BpCount() uint16 { return dpos.bpc.Size() }
 
 // VerifC09LibNo exposes the LIB number VerifyTimestamp compares with.
 func (dpos *DPoS) VerifC09LibNo() types.BlockNo { return dpos.libNo() }
+
+// VerifC09Update replaces the producer set the way Status.Update does after an
+// election or a reorganisation (bp.Snapshots.UpdateCluster -> Cluster.Update).
+func (dpos *DPoS) VerifC09Update(ids []string) error { return dpos.bpc.Update(ids) }
+
+// VerifC09BpID exposes bpc.BpIndex2ID.
+func (dpos *DPoS) VerifC09BpID(i uint16) (types.PeerID, bool) { return dpos.bpc.BpIndex2ID(bp.Index(i)) }
+
+// VerifC09Has exposes bpc.Has.
+func (dpos *DPoS) VerifC09Has(id types.PeerID) bool { return dpos.bpc.Has(id) }
